@@ -199,6 +199,9 @@ func TestC18(t *testing.T) {
 						continue
 					}
 					gen.NonTrivial("rtmr-bit", r, bit, wi)
+					if bit%97 == 0 {
+						gen.Sample("rtmr-bit", desc)
+					}
 					if !expectBlocked(t, fmt.Sprintf("rtmr%d-bit", r), desc, st, v) {
 						return
 					}
@@ -235,6 +238,7 @@ func TestC18(t *testing.T) {
 				f.apply(w, q, s)
 				st, v := parse(w, q.Encode(), nonce, nil, nil)
 				gen.NonTrivial("gate1", f.name, withRtmr)
+				gen.Sample("gate1", fmt.Sprintf("forgery %s, measured RTMR flipped=%v", f.name, withRtmr))
 				if !expectBlocked(t, "verification-fault:"+f.name, fmt.Sprintf("forgery %s, rtmr flipped=%v", f.name, withRtmr), st, v) {
 					return
 				}
@@ -272,13 +276,18 @@ func TestC18(t *testing.T) {
 			{"mr_owner_config", func(o *validate.Options) { o.TdQuoteBodyOptions.MrOwnerConfig = bit(q.MrOwnerConfig[:]) }},
 			{"rtmr", func(o *validate.Options) { o.TdQuoteBodyOptions.Rtmrs = [][]byte{nil, nil, bit(q.Rtmr[2][:]), nil} }},
 			{"any_mr_td", func(o *validate.Options) { o.TdQuoteBodyOptions.AnyMrTd = [][]byte{bit(q.MrTd[:]), make([]byte, 48)} }},
-			{"minimum_tee_tcb_svn", func(o *validate.Options) { m := append([]byte{}, q.TeeTcbSvn[:]...); m[0]++; o.TdQuoteBodyOptions.MinimumTeeTcbSvn = m }},
+			{"minimum_tee_tcb_svn", func(o *validate.Options) {
+				m := append([]byte{}, q.TeeTcbSvn[:]...)
+				m[0]++
+				o.TdQuoteBodyOptions.MinimumTeeTcbSvn = m
+			}},
 			{"minimum_qe_svn", func(o *validate.Options) { o.HeaderOptions.MinimumQeSvn = binary.LittleEndian.Uint16(q.Word10[:]) + 1 }},
 			{"minimum_pce_svn", func(o *validate.Options) { o.HeaderOptions.MinimumPceSvn = binary.LittleEndian.Uint16(q.Word8[:]) + 1 }},
 		}
 		for _, pc := range pols {
 			st, v := parse(w, w.Raw, nonce, pc.set, nil)
 			gen.NonTrivial("gate2", pc.name)
+			gen.Sample("gate2", "policy expects another "+pc.name)
 			if !expectBlocked(t, "policy-mismatch:"+pc.name, "policy expects another "+pc.name, st, v) {
 				return
 			}
